@@ -11,7 +11,8 @@ use proptest::prelude::*;
 use serde::{Deserialize, Serialize};
 use std::path::Path;
 
-pub const NAMES: [&str; 6] = ["LvA", "LvAB", "_lvx", "lv.1", "élv1", "LvZ9"];
+// (the last four hold non-ASCII numeric characters: decimal digit U+0663, other number U+00B2, letter number U+2167)
+pub const NAMES: [&str; 10] = ["LvA", "LvAB", "_lvx", "lv.1", "élv1", "LvZ9", "Lv\u{663}x", "Lv\u{b2}", "\u{2167}Lv", "\u{663}"];
 const VALUES: [&str; 12] = ["val", "", "{", "}", "ENV{LvAB}", "LvAB}", "sub/dir", "ü", "x y", "ENV{LvA}{", "/abs/x", "/"];
 const LITERALS: [&str; 14] = ["a", "log", "é", " ", "-", ".", "_", "$", "{", "}", "$ENV", "$ENV{", "ENV{", "$$"];
 const MALFORMED: [&str; 10] = ["$ENV{}", "$ENV{.a}", "$ENV{-a}", "$ENV{$ENV{LvA}}", "$ENV{Lv-A}", "$ENV{Lv A}", "$ENV{Lv$A}", "$ENV{LvA", "$ENV{LvA/x}", "$ENV{ }"];
@@ -42,8 +43,8 @@ pub fn strategy() -> impl Strategy<Value = Case> {
 }
 
 fn install(vars: &[Option<String>]) {
-    for (n, v) in NAMES.iter().zip(vars.iter()) {
-        match v {
+    for (i, n) in NAMES.iter().enumerate() {
+        match vars.get(i).cloned().flatten() {
             Some(v) => std::env::set_var(n, v),
             None => std::env::remove_var(n),
         }
@@ -59,18 +60,18 @@ fn reference(case: &Case) -> String {
 /// `_`, say) is looked up in the real environment, which is what "a set environment variable" means.
 fn lookup_var(case: &Case, name: &str) -> Option<String> {
     match NAMES.iter().position(|n| *n == name) {
-        Some(i) => case.vars[i].clone(),
+        Some(i) => case.vars.get(i).cloned().flatten(),
         None => std::env::var(name).ok(),
     }
 }
 
 fn classify(case: &Case, obs: &mut Obs) {
-    let substituted = NAMES.iter().enumerate().any(|(i, n)| case.vars[i].is_some() && case.path.contains(&format!("$ENV{{{}}}", n)));
-    let verbatim = NAMES.iter().enumerate().any(|(i, n)| case.vars[i].is_none() && case.path.contains(&format!("$ENV{{{}}}", n)))
+    let substituted = NAMES.iter().enumerate().any(|(i, n)| case.vars.get(i).map_or(false, |v| v.is_some()) && case.path.contains(&format!("$ENV{{{}}}", n)));
+    let verbatim = NAMES.iter().enumerate().any(|(i, n)| case.vars.get(i).map_or(true, |v| v.is_none()) && case.path.contains(&format!("$ENV{{{}}}", n)))
         || MALFORMED.iter().any(|m| case.path.contains(m))
         || case.path.contains("LvNEVERSET")
         || case.path.replace("$ENV{", "").contains('$');
-    let brace_value = NAMES.iter().enumerate().any(|(i, n)| case.vars[i].as_ref().map_or(false, |v| v.contains('{') || v.contains('}')) && case.path.contains(&format!("$ENV{{{}}}", n)));
+    let brace_value = NAMES.iter().enumerate().any(|(i, n)| case.vars.get(i).and_then(|v| v.as_ref()).map_or(false, |v| v.contains('{') || v.contains('}')) && case.path.contains(&format!("$ENV{{{}}}", n)));
     let multibyte_name = case.path.contains("$ENV{élv1}");
     obs.nontrivial = (substituted && verbatim) || brace_value || multibyte_name;
     obs.class_if(substituted, "substituted-reference");
@@ -104,10 +105,15 @@ pub fn check_bulk(case: &Case, obs: &mut Obs) -> CaseResult {
                 }
                 cur = next;
             }
-            hit || got.len() != want.len()
+            hit
         };
+        // a reference to a set variable that is still there verbatim
+        let unexpanded = NAMES.iter().enumerate().any(|(i, n)| {
+            let r = format!("$ENV{{{}}}", n);
+            case.vars.get(i).map_or(false, |v| v.is_some()) && got.matches(&r).count() > want.matches(&r).count()
+        });
         return fail(
-            if rescan { "C19:rescan" } else { "C19:wrong-expansion" },
+            if rescan { "C19:rescan" } else if unexpanded { "C19:not-expanded" } else { "C19:wrong-expansion" },
             format!("path {:?} with {:?} expanded to {:?}; a single left-to-right pass gives {:?}", case.path, NAMES.iter().zip(case.vars.iter()).filter(|(_, v)| v.is_some()).collect::<Vec<_>>(), got, want),
         );
     }
@@ -160,10 +166,10 @@ pub fn check_e2e(tmp: &Path, case: &Case, obs: &mut Obs) -> CaseResult {
         obs.class("not-filesystem-safe(skipped)");
         return Ok(());
     }
-    for which in 0..5 {
+    for which in 0..7 {
         let root = scratch(tmp, "c19");
         let given = format!("{}/{}", root.display(), case.path);
-        if which >= 3 {
+        if which == 3 || which == 4 {
             // truncate mode: the file that is emptied at open time is the one at the expanded location
             let old = root.join(collapse(&want_rel));
             std::fs::create_dir_all(old.parent().unwrap()).unwrap();
@@ -185,6 +191,20 @@ pub fn check_e2e(tmp: &Path, case: &Case, obs: &mut Obs) -> CaseResult {
                     let policy = make_policy(&root.join("unused"), &TrigSpec::Size(1 << 40), &RollSpec::Delete).map_err(|e| e.to_string())?;
                     build_appender(Path::new(&given), false, &None, policy).map_err(|e| e.to_string())?;
                 }
+                5 | 6 => {
+                    // the same locations reached through a configuration file (the deserializers build the appenders)
+                    let q = |s: &str| serde_json::to_string(s).unwrap();
+                    let yaml = if which == 5 {
+                        format!("appenders:\n  a:\n    kind: file\n    path: {}\nroot:\n  level: info\n", q(&given))
+                    } else {
+                        format!("appenders:\n  a:\n    kind: rolling_file\n    path: {}\n    policy:\n      trigger:\n        kind: size\n        limit: 1gb\n      roller:\n        kind: delete\nroot:\n  level: info\n", q(&given))
+                    };
+                    let raw: log4rs::config::RawConfig = serde_yaml::from_str(&yaml).map_err(|e| format!("harness YAML: {}", e))?;
+                    let (apps, errs) = raw.appenders_lossy(&log4rs::config::Deserializers::default());
+                    if apps.len() != 1 {
+                        return Err(format!("deserializing the appender failed: {:?}", errs));
+                    }
+                }
                 _ => {
                     let roller = FixedWindowRoller::builder().build(&format!("{}.{{}}", given), 2).map_err(|e| e.to_string())?;
                     let src = root.join("rolled-src");
@@ -194,7 +214,7 @@ pub fn check_e2e(tmp: &Path, case: &Case, obs: &mut Obs) -> CaseResult {
             }
             Ok(())
         });
-        let what = ["FileAppender", "RollingFileAppender", "FixedWindowRoller", "FileAppender(truncate mode)", "RollingFileAppender(truncate mode)"][which];
+        let what = ["FileAppender", "RollingFileAppender", "FixedWindowRoller", "FileAppender(truncate mode)", "RollingFileAppender(truncate mode)", "kind: file (configuration file)", "kind: rolling_file (configuration file)"][which];
         let res = match r {
             Err(p) => {
                 let _ = std::fs::remove_dir_all(&root);
@@ -224,7 +244,7 @@ pub fn check_e2e(tmp: &Path, case: &Case, obs: &mut Obs) -> CaseResult {
             if files.iter().any(|f| f.len() != want_file.len()) { "C19:rescan" } else { "C19:wrong-location" },
             "{} given {:?} created {:?}; the expanded location is {:?}", what, case.path, files, want_file
         );
-        if which >= 3 {
+        if which == 3 || which == 4 {
             ensure!(s.files[&want_file].is_empty(), "C19:truncate-wrong-file", "{} given {:?}: the file at the expanded location {:?} still holds {} bytes of the earlier run after being opened in truncate mode", what, case.path, want_file, s.files[&want_file].len());
         }
     }
@@ -258,7 +278,7 @@ pub fn replay(part: &str, case: serde_json::Value) -> Option<CaseResult> {
 pub fn meta() -> EvidenceMeta {
     EvidenceMeta {
         level: "exploration",
-        rule: "cases = paths built as token sequences (literal ASCII/non-ASCII text, spaces, stray '$', '{', '}', '$ENV', '$ENV{', well-formed references to a pool of six variables (names incl. '.', '_' first, non-ASCII) each set or unset per case, repeated and adjacent references, malformed references: empty name, illegal first/inner character, nested, missing brace at end or before '/') with '$'-free adversarial values (empty, braces, 'ENV{LvAB}', 'LvAB}', sub-directories, non-ASCII); oracle: (bulk, guarded hook) expansion == the harness's single left-to-right pass in which substituted text is never rescanned, no panic; (end-to-end, public API) FileAppender::build, RollingFileAppender::build and FixedWindowRoller::roll on a filesystem-safe path under a fresh directory create exactly the file at the reference location and no other regular file, and in truncate mode empty the pre-existing file at that location. non-trivial = a substituted reference together with a construct left verbatim, or a value containing braces, or a multi-byte variable name".into(),
+        rule: "cases = paths built as token sequences (literal ASCII/non-ASCII text, spaces, stray '$', '{', '}', '$ENV', '$ENV{', well-formed references to a pool of ten variables (names incl. '.', '_' first, non-ASCII letters, non-ASCII decimal digits / letter numbers / other numbers) each set or unset per case, repeated and adjacent references, malformed references: empty name, illegal first/inner character, nested, missing brace at end or before '/') with '$'-free adversarial values (empty, braces, 'ENV{LvAB}', 'LvAB}', sub-directories, non-ASCII); oracle: (bulk, guarded hook) expansion == the harness's single left-to-right pass in which substituted text is never rescanned, no panic; (end-to-end, public API) FileAppender::build, RollingFileAppender::build, the same two through a YAML configuration file and the default deserializers, and FixedWindowRoller::roll on a filesystem-safe path under a fresh directory create exactly the file at the reference location and no other regular file, and in truncate mode empty the pre-existing file at that location. non-trivial = a substituted reference together with a construct left verbatim, or a value containing braces, or a multi-byte variable name".into(),
         assumptions: vec!["values are '$'-free (the statement's domain)".into(), "environment mutated between cases: one driver thread per process".into()],
         mutants_caught: vec![],
     }
